@@ -28,6 +28,7 @@ mod c09;
 mod c04;
 mod c11;
 mod c05;
+mod c05b;
 
 use std::io::{BufRead, Write};
 
@@ -88,9 +89,18 @@ fn lookup(id: &str) -> Option<(&'static str, Gen, Exec)> {
         "C09" => Some(("C09", c09::generate, c09::exec)),
         "C04" => Some(("C04", c04::generate, c04::exec)),
         "C11" => Some(("C11", c11::generate, c11::exec)),
-        "C05" => Some(("C05", c05::generate, c05::exec)),
+        "C05" => Some(("C05", c05_generate, c05_exec)),
         _ => None,
     }
+}
+
+fn c05_generate(ctx: &mut Ctx) {
+    c05::generate(ctx);
+    c05b::generate_into(ctx);
+}
+
+fn c05_exec(toks: &[&str]) -> String {
+    if toks.first() == Some(&"crlx") { c05b::exec(toks) } else { c05::exec(toks) }
 }
 
 fn main() {
